@@ -151,6 +151,42 @@ def refusal_table(ctx, rule, fa, table, what, extra_terms=(), skip_handlers=True
     return matched
 
 
+def effect_table(ctx, rule, fa, vocabulary, rows, what_prefix="", count=None):
+    """rows = [(statement text or prefix, guard `need`, what)].  Every simple statement of the function whose normalised text starts with the
+    row's text (at least one must exist) is reached under `need` (dominance) and under no condition outside the function's own test
+    vocabulary (`vocabulary` + the row's terms): a dropped, negated, widened or additionally narrowed test all change the verdict, while
+    re-ordering or re-orienting the same tests does not."""
+    q = fa.fi.qualname
+    simple = (ast.Expr, ast.Assign, ast.AugAssign, ast.AnnAssign, ast.Return, ast.Raise, ast.Break, ast.Continue, ast.Delete)
+    stmts = [x for x in fa.local_nodes(simple)]
+    stmts.sort(key=lambda n: (n.lineno, n.col_offset))
+    for i, row in enumerate(rows):
+        text, need, what = row[:3]
+        nth = row[3] if len(row) > 3 else None
+        hits = [x for x in stmts if norm_text(x).startswith(text)] if text != "return" else [x for x in stmts if isinstance(x, ast.Return) and x.value is None]
+        if nth is not None:
+            hits = hits[nth:nth + 1] if nth >= 0 else hits[nth:][:1]
+        key0 = f"{rule}|{q}|{text[:40]}" + (f"#{nth}" if nth is not None else "")
+        if not hits:
+            ctx.ob(rule, False, fa.site(), f"{what_prefix}{what}", detail=f"no statement `{text}…` in {fa.fi.name}", func=q, key=key0 + "|present")
+            continue
+        for x in hits:
+            ok, missing, wit = fa.guarded(x, need) if need.strip() else (fa.reachable(x), [], "")
+            ctx.ob(rule, ok, fa.site(x), f"{what_prefix}{what}", detail="" if ok else f"`{norm_text(x)[:60]}` not under [{fmt_missing(missing)}]; {wit}", func=q, key=key0 + "|dom")
+            only_terms(ctx, rule, fa, x, list(vocabulary) + ([need] if need.strip() else []), f"{what_prefix}{what} — and nothing else decides it", key=key0 + "|terms")
+
+
+def next_stmt(x):
+    """the statement that follows x in its own block (body / orelse / finalbody / handler body), or None"""
+    par = getattr(x, "_parent", None)
+    for fld in ("body", "orelse", "finalbody"):
+        blk = getattr(par, fld, None)
+        if isinstance(blk, list) and x in blk:
+            i = blk.index(x)
+            return blk[i + 1] if i + 1 < len(blk) else None
+    return None
+
+
 def ref_sites(prog, name, loads_only=True):
     """[(module, node, enclosing FunctionInfo|None)] for every syntactic reference to identifier `name`"""
     out = []
